@@ -10,7 +10,7 @@
    afterwards, Err = refused (entry_apply, unfolded by C04_entry_table).
    cfind / cdfind … look a key up in a map (a list with pairwise distinct keys). *)
 From FB Require Import C04.Model C04.Text C04.Theory C04.Theory2 C04.TextTheory C04.TextTheory2 C04.TextTheory3 C04.TextTheory4
-  C04.Model2 C04.Equiv C04.Equiv2 C04.Spec C04.Noop.
+  C04.Model2 C04.Equiv C04.Equiv2 C04.Spec C04.Noop C04.Unique.
 
 (* ---------------- apply_diff_option: the complete table ---------------- *)
 Theorem C04_option_ok_iff : forall (d : action str) (t r : option str),
@@ -500,3 +500,91 @@ Theorem C04_round4_examples :
                   /\ text_hyps_top_b A B = true /\ f4_class A B = false /\ text_inverse_law_b A B = true).
 Proof. exact round4_nonvacuous. Qed.
 Print Assumptions C04_round4_examples.
+
+(* ================= round 5 ================= *)
+
+(* ---------------- a diff is determined by its effect, up to no-ops ---------------- *)
+(* Two diffs that apply to the same well-formed mapping set and lead to the same result (up to the order of
+   the maps) are the same diff up to no-ops: None versus Edit(x,x) (eff), an absent entry versus an entry
+   without any effective action below it, and whatever hangs below a removal (never looked at).  For every
+   target namespace index; d_good = pairwise distinct keys in every map of the diff (follows from wf_diff). *)
+Theorem C04_diff_unique : forall tns d1 d2 t r1 r2,
+  wf t = true -> (tns < length (ms_ns t))%nat -> d_good d1 -> d_good d2 ->
+  apply_at tns d1 t = Ok r1 -> apply_at tns d2 t = Ok r2 -> mequiv r1 r2 -> same_diff d1 d2.
+Proof. exact diff_unique. Qed.
+Print Assumptions C04_diff_unique.
+
+(* with MappingsDiff::diff as one of the two: EVERY diff that leads from A to B is diff A B up to no-ops
+   (the tree-level uniqueness that was stated and not proved until round 5) *)
+Theorem C04_diff_unique_AB : forall A B d r,
+  inverse_hyps A B -> f3_class A B = false -> d_good d ->
+  apply_to d A (nth 1 (ms_ns A) []) = Ok r -> mequiv r B ->
+  exists d0, diff A B = Ok d0 /\ same_diff d d0.
+Proof. exact diff_unique_AB. Qed.
+Print Assumptions C04_diff_unique_AB.
+
+(* the converse of C04_noop_identity: a diff that leaves the mapping set as it is (up to order) has no
+   effective action at any level *)
+Theorem C04_apply_identity_noop : forall tns d t r,
+  wf t = true -> (tns < length (ms_ns t))%nat -> d_good d ->
+  apply_at tns d t = Ok r -> mequiv r t ->
+  eff (d_info d) = ANone /\ eff (d_doc d) = ANone /\ forall cd, In cd (d_classes d) -> eff (cd_info cd) = ANone /\ cd_noop cd.
+Proof. exact apply_identity_noop. Qed.
+Print Assumptions C04_apply_identity_noop.
+
+(* the vocabulary of the three statements, unfolded (so they cannot be weakened by redefinition) *)
+Theorem C04_same_diff_vocabulary :
+  (forall a, eff a = match a with AEdit x y => if str_eqb x y then ANone else a | _ => a end)
+  /\ (forall a, eff a = ANone <-> is_diff str_eqb a = false)
+  /\ (forall {D} (info : D -> action str) csame cnoop o1 o2, ent_same info csame cnoop o1 o2 <->
+        match o1, o2 with
+        | None, None => True
+        | Some d, None | None, Some d => eff (info d) = ANone /\ cnoop d
+        | Some d1, Some d2 => eff (info d1) = eff (info d2) /\ (is_rem (info d1) = true \/ csame d1 d2)
+        end)
+  /\ (forall d1 d2, same_diff d1 d2 <->
+        eff (d_info d1) = eff (d_info d2) /\ eff (d_doc d1) = eff (d_doc d2)
+        /\ forall k, ent_same cd_info cd_same cd_noop (cdfind k (d_classes d1)) (cdfind k (d_classes d2)))
+  /\ (forall d1 d2, cd_same d1 d2 <->
+        eff (cd_doc d1) = eff (cd_doc d2)
+        /\ (forall k, ent_same fd_info fd_same fd_noop (fdfind k (cd_fields d1)) (fdfind k (cd_fields d2)))
+        /\ (forall k, ent_same md_info md_same md_noop (mdfind k (cd_methods d1)) (mdfind k (cd_methods d2))))
+  /\ (forall d, cd_noop d <->
+        eff (cd_doc d) = ANone /\ (forall f, In f (cd_fields d) -> eff (fd_info f) = ANone /\ fd_noop f)
+        /\ (forall m, In m (cd_methods d) -> eff (md_info m) = ANone /\ md_noop m))
+  /\ (forall d1 d2, md_same d1 d2 <->
+        eff (md_doc d1) = eff (md_doc d2)
+        /\ forall k, ent_same pd_info pd_same pd_noop (pdfind k (md_params d1)) (pdfind k (md_params d2)))
+  /\ (forall d, md_noop d <->
+        eff (md_doc d) = ANone /\ forall p, In p (md_params d) -> eff (pd_info p) = ANone /\ pd_noop p)
+  /\ (forall d1 d2, fd_same d1 d2 <-> eff (fd_doc d1) = eff (fd_doc d2)) /\ (forall d, fd_noop d <-> eff (fd_doc d) = ANone)
+  /\ (forall d1 d2, pd_same d1 d2 <-> eff (pd_doc d1) = eff (pd_doc d2)) /\ (forall d, pd_noop d <-> eff (pd_doc d) = ANone)
+  /\ (forall d, d_good d <-> NoDup (map cd_name (d_classes d)) /\ forall cd, In cd (d_classes d) ->
+        NoDup (map fdkey (cd_fields cd)) /\ NoDup (map mdkey (cd_methods cd))
+        /\ forall md, In md (cd_methods cd) -> NoDup (map pd_index (md_params md)))
+  /\ (forall d, wf_diff d = true -> d_good d).
+Proof. exact same_diff_vocabulary. Qed.
+Print Assumptions C04_same_diff_vocabulary.
+
+Theorem C04_same_diff_refl : forall d, same_diff d d.
+Proof. exact same_diff_refl. Qed.
+Print Assumptions C04_same_diff_refl.
+
+(* one map level, generic: the statement the four levels instantiate *)
+Theorem C04_map_unique : forall {K D T} (L : level K D T), level_ok L ->
+  forall tn tgood dgood teq csame cnoop, level_u L tn tgood dgood teq csame cnoop -> (forall x y, teq x y -> teq y x) ->
+  forall ds1 ds2 ts r1 r2,
+  NoDup (map (l_dkey L) ds1) -> NoDup (map (l_dkey L) ds2) -> NoDup (map (l_tkey L) ts) ->
+  (forall t, In t ts -> tgood t) -> (forall d, In d ds1 -> dgood d) -> (forall d, In d ds2 -> dgood d) ->
+  apply_map_L L ds1 ts = Ok r1 -> apply_map_L L ds2 ts = Ok r2 ->
+  (forall k, opt_rel teq (tfind L k r1) (tfind L k r2)) ->
+  forall k, ent_same (l_info L) csame cnoop (dfind L k ds1) (dfind L k ds2).
+Proof. exact @map_unique. Qed.
+Print Assumptions C04_map_unique.
+
+(* non-vacuity: diff ex_A ex_A is not the empty diff but the same up to no-ops; diff ex_A ex_B is not; edits to
+   different values are told apart; a hand-written diff (None for Edit(x,x), rubbish below a removal) satisfies
+   the hypotheses of C04_diff_unique_AB, is a different term than diff uq_A uq_B, and is the same up to no-ops *)
+Theorem C04_unique_examples : unique_examples.
+Proof. exact unique_examples_hold. Qed.
+Print Assumptions C04_unique_examples.
